@@ -1,6 +1,7 @@
 import FedjaxVerif.Lemmas.Stats
 import FedjaxVerif.Lemmas.Metrics
 import FedjaxVerif.Props.C03
+import FedjaxVerif.Props.C15
 
 /-!
 # C05 — evaluation is invariant to batching and padding (metric monoid)
@@ -202,6 +203,28 @@ theorem C05_padded_batch_eval {σ ε : Type} {o : StatOps σ} {V : σ → Prop} 
   obtain ⟨v, hv1, hv2⟩ := Batching.C03_padded_unpad bs B hbs hB z xs
   refine ⟨v, hv1, ?_⟩
   apply C05_partition_invariant h f _ xs _ hv
+  have : (v.map fun b => ((b.1, some b.2) : List ε × Option (List Bool))).flatMap batchReal
+      = Batching.unpad v := by
+    unfold Batching.unpad
+    rw [List.flatMap_map]
+    rfl
+  rw [this, hv2]
+
+
+/-- **Centralised evaluation.** Evaluating over the single padded stream that
+`padded_batch_client_datasets` builds from many client datasets (C15's `multiBatch`: batches span
+client boundaries, only the last one is padded) is the one-by-one merge over all examples of all
+clients — the same as evaluating the concatenated dataset, for every `(bs, B)` and every mix of
+client sizes, including empty clients. -/
+theorem C05_multi_client_eval {σ ε : Type} {o : StatOps σ} {V : σ → Prop} (h : Lawful o V)
+    (f : ε → σ) (bs B : Nat) (hbs : 0 < bs) (hB : 0 < B) (z : ε) (dsets : List (List ε))
+    (hv : ∀ e ∈ dsets.flatten, V (f e)) :
+    ∃ v, Centralised.multiBatch bs B z dsets = some v ∧
+      evalModel o f (v.map fun b => (b.1, some b.2))
+        = dsets.flatten.foldl (fun s e => o.merge s (f e)) o.zero := by
+  obtain ⟨v, hv1, hv2⟩ := Centralised.C15_multi_concat bs B hbs hB z dsets
+  refine ⟨v, hv1, ?_⟩
+  apply C05_partition_invariant h f _ dsets.flatten _ hv
   have : (v.map fun b => ((b.1, some b.2) : List ε × Option (List Bool))).flatMap batchReal
       = Batching.unpad v := by
     unfold Batching.unpad
